@@ -217,6 +217,16 @@ class DictV:
         return v
 
 
+class ElemV:
+    """model of an (l)xml element: tag, attributes, text, children — what writers build and readers walk"""
+
+    def __init__(self, tag, attrib=None):
+        self.tag, self.attrib, self.children, self.text, self.tail = tag, DictV(attrib or {}), ListV([]), NONE, NONE
+
+    def __repr__(self):
+        return "<%s %s%s>" % (show(self.tag), {k: show(v) for k, v in self.attrib.d.items()}, " +%d" % len(self.children.items) if self.children.items else "")
+
+
 class IdV:
     """id(x): only usable as a dictionary key and in equality tests"""
 
@@ -781,6 +791,10 @@ class Ev:
                 if r is not None:
                     return r
             raise Undecided("truth of the uninterpreted result %r%s" % (v, " at line %s" % node.lineno if node is not None else ""))
+        if isinstance(v, ElemV):
+            if v.children.items:
+                return True
+            raise Undecided("truth value of an element without children (use `is not None`)")
         if isinstance(v, (Obj, MatchV, EnumMember, Ctor, ClassRef, FuncV, PatternV, PyFunc)):
             return True
         raise Undecided("truth of %r is not decidable%s" % (v, " at line %s" % node.lineno if node is not None else ""))
@@ -993,8 +1007,14 @@ class Ev:
             if v.closed:
                 raise _Raise(node, "%r has no attribute %s" % (v, attr), "AttributeError")
             raise AnalysisError("attribute %s of %r is not modelled (line %s)" % (attr, v, getattr(node, "lineno", "?")))
+        if isinstance(v, ElemV):
+            if attr in ("tag", "text", "tail", "attrib"):
+                return getattr(v, attr)
+            return ("method", v, attr)
         if isinstance(v, ClassRef):
             c = v.cls
+            if c.is_enum and attr == "__members__":
+                return DictV({k: EnumMember(c, k, self.ev(x, {"__mod__": c.mod}, c.mod)) for k, x in c.enum_members().items()})
             if c.is_enum and attr in c.enum_members():
                 return EnumMember(c, attr, self.ev(c.enum_members()[attr], {"__mod__": c.mod}, c.mod))
             if attr == "__new__":
@@ -1013,6 +1033,12 @@ class Ev:
                 return Str.lit(v.name)
             if attr == "value":
                 return v.value
+            owner, pr = self.repo.find_prop(v.cls, attr)
+            if pr and pr.get("get") is not None:
+                return self.call_fn(FuncV(pr["get"], self_val=v, cls=owner, mod=owner.mod), [], {}, node)
+            owner, fn = self.repo.find_method(v.cls, attr)
+            if fn is not None:
+                return self.bind(fn, owner, v)
             raise AnalysisError("enum attribute .%s" % attr)
         if isinstance(v, ModRef):
             return ModRef(v.name + "." + attr)
@@ -1023,7 +1049,7 @@ class Ev:
         if "staticmethod" in d:
             return FuncV(fn, cls=owner, mod=owner.mod)
         if "classmethod" in d:
-            return FuncV(fn, self_val=via_class or ClassRef(self_val.cls if self_val is not None else owner), cls=owner, mod=owner.mod)
+            return FuncV(fn, self_val=via_class or ClassRef(getattr(self_val, "cls", None) or owner), cls=owner, mod=owner.mod)
         return FuncV(fn, self_val=self_val, cls=owner, mod=owner.mod)
 
     # ---- calls
@@ -1119,6 +1145,9 @@ class Ev:
                 self.assign(t, x, env, mod)
         elif isinstance(target, ast.Attribute):
             o = self.ev(target.value, env, mod)
+            if isinstance(o, ElemV) and target.attr in ("text", "tail", "tag"):
+                setattr(o, target.attr, v)
+                return
             if not isinstance(o, Obj):
                 raise AnalysisError("attribute store on %r at line %d" % (o, target.lineno))
             if o.cls is not None:
@@ -1268,6 +1297,8 @@ class Ev:
             return [EnumMember(v.cls, k, self.ev(x, {"__mod__": v.cls.mod}, v.cls.mod)) for k, x in v.cls.enum_members().items()]
         if isinstance(v, DictV):
             return [self.unkey(k) for k in v.d]
+        if isinstance(v, ElemV):
+            return list(v.children.items)
         if isinstance(v, Frag):
             return [v]
         raise AnalysisError("iteration over %r at line %d is not modelled" % (v, node.lineno))
@@ -1568,8 +1599,12 @@ class Ev:
                 return len(v.items)
             if isinstance(v, DictV):
                 return len(v.d)
+            if isinstance(v, ElemV):
+                return len(v.children.items)
             if isinstance(v, NoneT):
-                raise _Raise(e, "len(None)")
+                raise _Raise(e, "len(None)", "TypeError")
+            if isinstance(v, ClassRef) and v.cls.is_enum:
+                return len(v.cls.enum_members())
             raise Undecided("len(%r)" % (v,))
         if name in ("list", "tuple"):
             return (ListV if name == "list" else TupV)(self.iterate(args[0], e) if args else [])
@@ -1587,6 +1622,16 @@ class Ev:
             return all(ts) if name == "all" else any(ts)
         if name == "isinstance":
             return self.isinstance(args[0], args[1], e)
+        if name == "float" and len(args) == 1 and isinstance(args[0], Str):
+            v = args[0]
+            if v.is_lit():
+                try:
+                    return float(v.text())
+                except ValueError:
+                    raise _Raise(e, "float(%r)" % v.text(), "ValueError")
+            if len(v.pieces) == 1 and v.pieces[0][0] == "sym" and v.pieces[0][1].kind in ("num", "int"):
+                return v.pieces[0][1]
+            return Frag("float(%s)" % v.text())
         if name in ("round", "abs", "min", "max", "float") and args and any(isinstance(a, (Sym, Term)) for a in args):
             if name == "float" and len(args) == 1:
                 return args[0]
@@ -1654,6 +1699,20 @@ class Ev:
             if name == "map":
                 return ListV([self.apply(f, it, {}, e, None) for it in items])
             return ListV([it[0] for it in items if (self.truth(it[0], e) if isinstance(f, NoneT) else self.truth(self.apply(f, it, {}, e, None), e))])
+        if name == "sorted" and (not kwargs or set(kwargs) <= {"key", "reverse"}) and kwargs:
+            items = self.iterate(args[0], e)
+            keyf = kwargs.get("key")
+            keys = [self.apply(keyf, [x], {}, e, None) if keyf is not None and not isinstance(keyf, NoneT) else x for x in items]
+            rev = kwargs.get("reverse", False)
+            if not isinstance(rev, bool):
+                raise Undecided("sorted(reverse=%r)" % (rev,))
+            if all(isinstance(k, (int, float)) and not isinstance(k, bool) for k in keys):
+                order = sorted(range(len(items)), key=lambda i: keys[i], reverse=rev)
+            elif all(isinstance(k, Str) and k.is_lit() for k in keys):
+                order = sorted(range(len(items)), key=lambda i: keys[i].text(), reverse=rev)
+            else:
+                raise Undecided("sorted by keys %r" % (keys,))
+            return ListV([items[i] for i in order])
         if name == "sorted" and not kwargs:
             items = self.iterate(args[0], e)
             if all(isinstance(x, int) and not isinstance(x, bool) for x in items):
@@ -1724,6 +1783,38 @@ class Ev:
     def modcall(self, name, args, kwargs, e):
         if name.startswith("warnings.") or name.startswith("logging.") or name.startswith("logger."):
             return NONE
+        last = name.split(".")[-1]
+        if last == "Element" and args:
+            el = ElemV(args[0], args[1].d if len(args) > 1 and isinstance(args[1], DictV) else None)
+            if isinstance(kwargs.get("attrib"), DictV):
+                el.attrib.d.update(kwargs["attrib"].d)
+            el.attrib.d.update({k: v for k, v in kwargs.items() if k not in ("attrib", "nsmap")})
+            return el
+        if last == "SubElement" and len(args) >= 2 and isinstance(args[0], ElemV):
+            el = ElemV(args[1], args[2].d if len(args) > 2 and isinstance(args[2], DictV) else None)
+            el.attrib.d.update({k: v for k, v in kwargs.items() if k not in ("attrib", "nsmap")})
+            args[0].children.items.append(el)
+            return el
+        if name in ("datetime.strptime", "datetime.datetime.strptime") and len(args) == 2:
+            x, fmt = args
+            if isinstance(x, Ctor) and x.name == "strftime" and isinstance(fmt, Str) and fmt.is_lit() and isinstance(x.args.get("fmt"), Str):
+                if x.args["fmt"].key() == fmt.key():
+                    return x.args["of"]
+                raise _Raise(e, "time data does not match format %r" % fmt.text(), "ValueError")
+            raise AnalysisError("datetime.strptime(%r, %r) at line %d" % (x, fmt, e.lineno))
+        if name in ("operator.attrgetter", "attrgetter") and len(args) == 1 and isinstance(args[0], Str) and args[0].is_lit():
+            a0 = args[0].text()
+
+            def getter(a, k, a0=a0):
+                v = a[0]
+                for part in a0.split("."):
+                    v = self.getattr(v, part, e, None)
+                return v
+
+            return PyFunc(getter, "attrgetter(%r)" % a0)
+        if name in ("operator.itemgetter", "itemgetter") and len(args) == 1:
+            i0 = args[0]
+            return PyFunc(lambda a, k: self.subscript(a[0], ast.Constant(value=i0 if isinstance(i0, int) else i0.text()), {}, None, e), "itemgetter")
         if name in ("collections.defaultdict", "defaultdict"):
             d = DictV()
             d.default = args[0] if args else None
@@ -1743,6 +1834,8 @@ class Ev:
             if isinstance(v, DictV):
                 return DictV(dict(v.d))
             return v
+        if name in ("np.float64", "numpy.float64", "np.float32", "np.double", "np.int64", "np.asarray") and len(args) == 1 and not kwargs and is_numeric(args[0]):
+            return args[0]  # a conversion between number types: the value is the same
         if name.split(".")[0] in self.pure_modules or name in self.pure_calls:
             r = Ctor(name, dict({"arg%d" % i: a for i, a in enumerate(args)}, **kwargs), kind="call")
             self.trace.append(("call", e, r))
@@ -1897,6 +1990,49 @@ class Ev:
                 if any(p[0] == "lit" and not p[1].isdigit() or p[0] == "sym" and not (p[1].charset & set("0123456789")) for p in recv.pieces):
                     return False
                 raise Undecided("isdigit on %s" % recv.text())
+        if isinstance(recv, ElemV):
+            if name == "set":
+                recv.attrib.d[self.key_of(args[0])] = args[1]
+                return NONE
+            if name == "get":
+                k = self.key_of(args[0])
+                return recv.attrib.d.get(k, args[1] if len(args) > 1 else kwargs.get("default", NONE))
+            if name == "append":
+                recv.children.items.append(args[0])
+                return NONE
+            if name == "extend":
+                recv.children.items.extend(self.iterate(args[0], e))
+                return NONE
+            if name == "insert" and isinstance(args[0], int):
+                recv.children.items.insert(args[0], args[1])
+                return NONE
+            if name in ("find", "findall", "iter", "iterchildren", "iterfind"):
+                want = args[0] if args else None
+                if want is not None and not (isinstance(want, Str) and want.is_lit() and "/" not in want.text() and "[" not in want.text()):
+                    raise AnalysisError("element path %r at line %d is not modelled" % (want, e.lineno))
+                hits = []
+                for c in recv.children.items:
+                    if want is None:
+                        hits.append(c)
+                    elif isinstance(c, ElemV):
+                        if isinstance(c.tag, Str) and c.tag.is_lit():
+                            if c.tag.text() == want.text():
+                                hits.append(c)
+                        else:
+                            raise Undecided("tag %r against %r" % (c.tag, want))
+                if name == "find":
+                    return hits[0] if hits else NONE
+                return ListV(hits)
+            if name == "findtext":
+                want = args[0]
+                for c in recv.children.items:
+                    if isinstance(c, ElemV) and isinstance(c.tag, Str) and c.tag.is_lit() and isinstance(want, Str) and c.tag.text() == want.text():
+                        return c.text if c.text is not NONE else Str.lit("")
+                return args[1] if len(args) > 1 else kwargs.get("default", NONE)
+            if name in ("items", "keys"):
+                return ListV([TupV([self.unkey(k), v]) for k, v in recv.attrib.d.items()]) if name == "items" else ListV([self.unkey(k) for k in recv.attrib.d])
+            if name == "getchildren":
+                return ListV(list(recv.children.items))
         if isinstance(recv, SetV):
             if name == "add":
                 if not any(same(args[0], y) for y in recv.items):
@@ -1962,6 +2098,29 @@ class Ev:
                     raise _Raise(e, "pop from empty list")
             if name == "copy":
                 return ListV(recv.items)
+            if name in ("sort", "reverse"):
+                if name == "reverse":
+                    recv.items.reverse()
+                    return NONE
+                r = self.builtin("sorted", [recv], dict(kwargs) if kwargs else {}, e)
+                recv.items[:] = r.items
+                return NONE
+            if name == "index":
+                for i, x in enumerate(recv.items):
+                    if self.equal(x, args[0]):
+                        return i
+                raise _Raise(e, "value is not in the list", "ValueError")
+            if name == "count":
+                return sum(1 for x in recv.items if self.equal(x, args[0]))
+            if name == "remove":
+                for i, x in enumerate(recv.items):
+                    if self.equal(x, args[0]):
+                        del recv.items[i]
+                        return NONE
+                raise _Raise(e, "list.remove(x): x not in list", "ValueError")
+            if name == "clear":
+                recv.items[:] = []
+                return NONE
         if isinstance(recv, DictV):
             if name == "get":
                 k = self.key_of(args[0])
